@@ -64,7 +64,8 @@ def linkenv (g0 : List (String × IMap)) (pkgs : List (String × List (String ×
     | _, some (f, _) => s!"differ\tmap-not-in-env.rs\t{f}"
     | none, none =>
       let nkeys := (maps.map fun f => (M f).length).foldl (· + ·) 0
-      let npk := (pkgs.map fun (_, e) => (e.map fun (_, m) => m.length).foldl (· + ·) 0).foldl (· + ·) 0
+      -- entries of the packages themselves (every package also re-exports the builtins of `g0`)
+      let npk := (pkgs.map fun (_, e) => (e.map fun (f, m) => (m.filter fun (k, _) => (IMap.lookup (ofList g0 f) k).isNone).length).foldl (· + ·) 0).foldl (· + ·) 0
       let sameOrder := maps.all fun f => (M f).map (·.1) == (ofList sep f).map (·.1)
       s!"ok\tmaps={maps.length}\tkeys={nkeys}\tpkgkeys={npk}\tpkgs={pkgs.length}\tsame-iteration-order-as-separate={sameOrder}"
 
